@@ -182,6 +182,12 @@ func (r *runner) setupModule() {
 	if b, err := os.ReadFile(filepath.Join(mc.RepoDir(), "go.sum")); err == nil {
 		os.WriteFile(filepath.Join(r.root, "go.sum"), b, 0o644)
 	}
+	// user packages whose names collide with packages the generated code imports
+	for _, pkg := range CollidePkgs {
+		d := filepath.Join(r.root, "x", pkg)
+		os.MkdirAll(d, 0o755)
+		write(filepath.Join(d, pkg+".go"), "// Package "+pkg+" is an application package that happens to be called like a helper package of gombok.\npackage "+pkg+"\n\ntype Level int\n")
+	}
 }
 
 func write(path, content string) {
